@@ -1,8 +1,23 @@
 (* C02 runners.
-   c02     : an encoded request (Lang/Codec.v) -> the reference interpreter's rendering (as C03.Runner.run)
+   c02     : an encoded request (Lang/Codec.v) -> the reference interpreter's rendering:
+             [0; n; c1..cn] rendered text | [1; code] error | [2] panic | [8] out of gas | [9] undecodable
    c02-ok  : same input -> [b; d]: b = the program is in the theorem's fragment (safe_free), d = the context is plain data *)
 From Coq Require Import String.
-From MJ Require Import Common.Base Lang.Syntax Lang.Meta Lang.Interp Lang.Codec C03.Runner C02.Spec.
+From MJ Require Import Common.Base Lang.Syntax Lang.Meta Lang.Interp Lang.Codec C02.Spec.
+
+Definition FUEL := 400%nat.
+
+Definition run (inp : list Z) : list Z :=
+  match drequest inp with
+  | None => [9]
+  | Some (md, esc, ctx, body) =>
+      match Interp.run (mkCfg md ctx esc) FUEL body with
+      | Ok s => let o := output_of s in 0 :: lenZ o :: o
+      | Err c => [1; c]
+      | Panic => [2]
+      | OutOfGas => [8]
+      end
+  end.
 
 Definition run_ok (inp : list Z) : list Z :=
   match drequest inp with
@@ -12,4 +27,4 @@ Definition run_ok (inp : list Z) : list Z :=
   end.
 
 Open Scope string_scope.
-Definition runners : list (string * (list Z -> list Z)) := [ ("c02", C03.Runner.run); ("c02-ok", run_ok) ].
+Definition runners : list (string * (list Z -> list Z)) := [ ("c02", run); ("c02-ok", run_ok) ].
